@@ -209,3 +209,60 @@ func VP_C10_roundtrip() {
 	}
 	vp.Cover("end")
 }
+
+// the caller's memory stays the caller's: the IV slice (with spare capacity,
+// shared by an encrypter and a decrypter as bot/login.go does) is neither
+// modified nor retained, and a source/destination buffer may be reused and
+// overwritten between calls (a read buffer) without affecting later output.
+func VP_C10_callers_memory() {
+	vpSetupNative()
+	backing := make([]byte, 16, 16+48*vp.Choice(2))
+	copy(backing, vp.Bytes(16))
+	ivCopy := append([]byte{}, backing...)
+	enc := NewCFB8Encrypt(vpBlock{}, backing)
+	dec := NewCFB8Decrypt(vpBlock{}, backing)
+	lens := []int{40, 33, 5}
+	if vp.Choice(2) == 1 {
+		lens = []int{5, 40, 33}
+	}
+	total := 0
+	for _, l := range lens {
+		total += l
+	}
+	msg := vp.Bytes(total)
+	wantCT := vpRefCFB8(ivCopy, msg, false)
+	buf := make([]byte, 64) // one reused source buffer, scribbled over after every call
+	var ct []byte
+	pos := 0
+	for _, l := range lens {
+		copy(buf, msg[pos:pos+l])
+		out := make([]byte, l)
+		enc.XORKeyStream(out, buf[:l])
+		ct = append(ct, out...)
+		for i := range buf {
+			buf[i] = 0xAA
+		}
+		pos += l
+	}
+	for i := range wantCT {
+		vp.Assert(ct[i] == wantCT[i], "output == byte-at-a-time reference")
+	}
+	vp.Assert(string(backing) == string(ivCopy), "the caller's IV is not modified")
+	// decrypt through a reused read buffer, results collected separately
+	var pt []byte
+	pos = 0
+	for _, l := range lens {
+		copy(buf, ct[pos:pos+l])
+		out := make([]byte, l)
+		dec.XORKeyStream(out, buf[:l])
+		pt = append(pt, out...)
+		for i := range buf {
+			buf[i] = 0x55
+		}
+		pos += l
+	}
+	for i := range msg {
+		vp.Assert(pt[i] == msg[i], "decrypt(encrypt(m)) == m")
+	}
+	vp.Cover("end")
+}
